@@ -831,3 +831,48 @@ impl Drop for TaskCancelOnDrop {
         unsafe { cancel() }
     }
 }
+
+/// Verification hook (off by default): read-only snapshots of executor state
+/// taken under the runtime's own locks, for invariant monitors.
+#[cfg(bytecodealliance_wit_bindgen_verif)]
+#[doc(hidden)]
+#[allow(missing_docs, reason = "verification-only hook")]
+pub mod verif {
+    use super::*;
+    use alloc::vec::Vec;
+
+    /// Snapshot of `(waitable, callback_ptr)` registered with the task whose
+    /// shared state is `shared` (the `wasip3_task::ptr` value).
+    pub unsafe fn shared_waitables(shared: *mut c_void) -> Vec<(u32, *mut c_void)> {
+        let me = unsafe { SharedTaskState::cabi_to_self(shared) };
+        let map = me.waitables.try_lock().unwrap();
+        map.iter().map(|(k, v)| (*k, v.callback_ptr)).collect()
+    }
+
+    /// Same, for the boxed task state stored in the context slot between
+    /// callbacks of an async export.
+    pub unsafe fn task_waitables(state: *mut u8) -> Vec<(u32, *mut c_void)> {
+        let state = unsafe { &*state.cast::<TaskState<'static>>() };
+        let map = state.shared.waitables.try_lock().unwrap();
+        map.iter().map(|(k, v)| (*k, v.callback_ptr)).collect()
+    }
+
+    /// The raw waitable-set index of that task, if it created one.
+    pub unsafe fn task_waitable_set(state: *mut u8) -> Option<u32> {
+        let state = unsafe { &*state.cast::<TaskState<'static>>() };
+        let set = state.shared.waitable_set.try_lock().unwrap();
+        set.as_ref().map(|s| s.as_raw())
+    }
+
+    /// Whether Rust-level work (root future or spawned tasks) remains.
+    pub unsafe fn task_has_rust_work(state: *mut u8) -> bool {
+        let state = unsafe { &*state.cast::<TaskState<'static>>() };
+        !state.tasks.is_empty()
+    }
+
+    /// One of the `SLEEP_STATE_*` values (0 polling, 1 woken, 2 sleeping).
+    pub unsafe fn task_sleep_state(state: *mut u8) -> u32 {
+        let state = unsafe { &*state.cast::<TaskState<'static>>() };
+        state.shared.sleep_state.load(Ordering::Relaxed)
+    }
+}
